@@ -67,8 +67,9 @@ PROPS = {
                       'footer field (unit open). All fan-outs 0..256, all pack widths, values to u64::MAX, every cache geometry.',
         'level_note': 'Sums of outputs along a path fit in u64: proved (builder: sums_ok carried through every stack operation, no assumption '
                       'left in Output::cat; compose: thm_built_file_fits gives the streams\' `fits` and the lookups\' `sums_fit` for every built '
-                      'file). The reader units state their contracts over fdom(file), whose identification with the addresses of graph(body) is '
-                      'argued (units are separate files; unit compose proves wf_graph, the listing, fits and canon for that choice). '
+                      'file). The reader units state their contracts over g() = (file, version, fdom(file, version)); fdom is one shared definition '
+                      '(inc/fdom_defs.rs: the body parsed backwards), opaque in the reader units, and unit compose proves for it - thm_built_file_ok - '
+                      'wf_graph, the listing, fits, sums_fit and canon of every built file. '
                       'Registry::entry is assumed clause-for-clause as verified in unit registry. std contracts (write_all, Vec, slice order).',
         'explanation': '',
         'assumptions': [],
@@ -191,8 +192,8 @@ PROPS = {
                       'through find_common_prefix_and_set_output, compile_from, compile, insert_output, insert and the map front ends into '
                       'fin_post; unit compose (thm_built_canon) proves canon for every such file whose values strictly increase with its keys.',
         'level_note': 'Node accessors are assumed contracts proved in unit decode (CONTRACT-OF); the hoisted take_while(..).last() expression is '
-                      'an assumed contract (Kani K-scan: window 8 quick / 40 thorough: bounded). The identification of the readers\' fdom(file) '
-                      'with the addresses of graph(body) is argued (units are separate files). A raw builder that mixes insert with a repeated '
+                      'an assumed contract (Kani K-scan: window 8 quick / 40 thorough: bounded). The readers\' fdom(file) is the shared definition for which unit compose '
+                      'proves the premise (thm_built_file_ok). A raw builder that mixes insert with a repeated '
                       'add of the same key may move a value off the path (the model stays right, the placement is not kept): such histories are '
                       'outside the premise (ti is kept by insert and the map front ends only).',
         'explanation': '',
